@@ -181,6 +181,7 @@ def generate(run_seed, index, tier):
                 else:
                     body.append({'op': 'c_ctrl', 'm': -1 - r.randrange(bm), 'bit': r.randrange(6), 'g': r.choice(['X', 'Z', 'H']), 'q': [r.randrange(n)]})
             ops.append({'op': 'c_extend', 'body': body, 'times': r.randint(1, 3)})
+        reg_w = r.choice([0, 0, 0, 5, 6, 6])
         nruns = r.randint(1, 4)
         for k in range(nruns):
             if use_wipe and r.random() < 0.2:
@@ -191,9 +192,11 @@ def generate(run_seed, index, tier):
                 ops.append(_gate_op(r, n, 'c_'))
             if r.random() < 0.15:
                 ops.append({'op': 'c_measure', 'S': _rand_subset(r, n)})
-            o = {'op': 'c_run', 'prep': prep(), 'picks': [r.randrange(64) for _ in range(12)], 'via': 'torch' if r.random() < 0.2 else 'plain'}
+            o = {'op': 'c_run', 'prep': prep(), 'picks': [r.randrange(64) for _ in range(12)], 'via': 'torch' if r.random() < 0.2 else 'plain', 'reg': reg_w}
             ops.append(maybe_fault(o))
-        ops.append({'op': 'c_run', 'prep': prep(), 'picks': [r.randrange(64) for _ in range(12)], 'via': 'plain'})
+        if r.random() < 0.3:
+            ops.append({'op': 'c_shift', 'delta': r.choice([1, -1, 2])})
+        ops.append({'op': 'c_run', 'prep': prep(), 'picks': [r.randrange(64) for _ in range(12)], 'via': 'plain', 'reg': reg_w})
     return {'engine': PROPERTY, 'config': {'n': n, 'lru': lru, 'entropy': cfg_r.getrandbits(32)}, 'ops': ops}
 
 
@@ -639,6 +642,7 @@ class Sim:
             return
         w = self.width()
         w = max([w] + [x[4].index[0] + 1 for x in self.desc if x[0] == 'cc'])
+        w = max(w, min(6, int(op.get('reg', 0))))  # a circuit may act on the low qubits of a wider register (same register size across shifts)
         # circuits always get a complex128 input: numqi's apply_control_n_gate writes into a copy of the input and silently drops the
         # imaginary part for float64 states (a C03-type input-dtype issue, outside C11; see DESIGN §5.4)
         psi0 = born.make_state(op['prep']['kind'], w, op['prep']['seed']).astype(np.complex128)
